@@ -580,7 +580,7 @@ func (p *parser) parsePrimary() (Expr, error) {
 // File parser: line based.
 
 var clauseKeywords = map[string]bool{
-	"func": true, "iface": true, "field": true, "pure": true, "predicate": true, "ghost": true, "axiom": true,
+	"func": true, "iface": true, "field": true, "extern": true, "pure": true, "predicate": true, "ghost": true, "axiom": true,
 	"lockinv": true, "protected": true, "chaninv": true, "atomic": true,
 	"requires": true, "ensures": true, "defines": true, "assumes": true, "modifies": true, "decreases": true, "loop": true, "invariant": true,
 	"effect": true, "unreachable": true, "inline": true, "maypanic": true, "nopanic": true, "trusted": true, "stepinv": true, "props": true, "function": true,
@@ -632,7 +632,7 @@ func parseSpecFile(path, pkg string) (*SpecFile, error) {
 	for _, l := range lines {
 		kw, rest := splitKw(l.text)
 		switch kw {
-		case "func", "iface", "field":
+		case "func", "iface", "field", "extern":
 			target, params, err := parseHeader(rest)
 			if err != nil {
 				return nil, fail(l, "%v", err)
